@@ -148,7 +148,17 @@ fn grammar(target: &'static str) -> BoxedStrategy<Vec<u8>> {
                 1 => "[a-c*?\\[\\]!0-9-]{0,10}",
             ];
             let name = || prop_oneof![3 => seed_line(SEED_PKGNAMES), 2 => vergen::tokens(6).prop_map(|v| format!("pkg-{}", v.concat())), 1 => "[a-c0-9.-]{0,8}"];
-            (pat, name(), name()).prop_map(|(p, a, b)| format!("{}\n{}\n{}", p, a, b).into_bytes()).boxed()
+            // correlated: the bound and the candidates' versions are edits of one token list (the
+            // decision then falls on one differing component - a huge number against a modifier ...)
+            let correlated = (prop::sample::select(vec![">=", ">", "<", "<="]), vergen::pair(8), vergen::pair(6), any::<bool>()).prop_map(|(op, (a, b), (c, _), two)| {
+                let pattern = if two { format!("pkg>={}<{}", a, c) } else { format!("pkg{}{}", op, a) };
+                format!("{}\npkg-{}\npkg-{}", pattern, b, a).into_bytes()
+            });
+            prop_oneof![
+                3 => (pat, name(), name()).prop_map(|(p, a, b)| format!("{}\n{}\n{}", p, a, b).into_bytes()),
+                1 => correlated,
+            ]
+            .boxed()
         }
         "names" => prop::collection::vec(
             prop_oneof![
